@@ -101,3 +101,185 @@ Fixpoint unquote_parts (rrun : list N) (s : str) : str :=
 
 Definition unquote (s : str) : str :=
   if contains_char N.eqb 37 s then unquote_parts [] s else s.
+
+(* ================================================================== *)
+(* Lemmas                                                              *)
+(* ================================================================== *)
+
+Lemma hexval_hex_upper n : n < 16 -> hexval (hex_upper n) = Some n.
+Proof.
+  intros H. unfold hex_upper, hexval.
+  destruct (N.ltb_spec n 10).
+  - replace ((48 <=? 48 + n) && (48 + n <=? 57)) with true by lia. f_equal. lia.
+  - replace ((48 <=? 55 + n) && (55 + n <=? 57)) with false by lia.
+    replace ((65 <=? 55 + n) && (55 + n <=? 70)) with true by lia. f_equal. lia.
+Qed.
+
+Lemma hex_upper_safe n : n < 16 -> always_safe (hex_upper n) = true.
+Proof. intros H. unfold hex_upper, always_safe. destruct (N.ltb_spec n 10); lia. Qed.
+
+(* every character produced by quote is unreserved, '%', or in the extra safe set *)
+Definition qchar (safe : N -> bool) (x : N) : bool := always_safe x || (x =? 37) || safe x.
+
+Lemma quote_byte_chars safe b : b < 256 -> Forall (fun x => qchar safe x = true /\ x < 128) (quote_byte safe b).
+Proof.
+  intros Hb. unfold quote_byte.
+  destruct ((b <? 128) && (always_safe b || safe b)) eqn:E.
+  - repeat constructor; unfold qchar; lia.
+  - unfold pct_byte.
+    assert (H1 : b / 16 < 16) by lia. assert (H2 : b mod 16 < 16) by lia.
+    pose proof (hex_upper_safe _ H1) as S1. pose proof (hex_upper_safe _ H2) as S2.
+    repeat constructor; unfold qchar; try (rewrite ?S1, ?S2; reflexivity).
+    + unfold hex_upper. destruct (b / 16 <? 10); lia.
+    + unfold hex_upper. destruct (b mod 16 <? 10); lia.
+Qed.
+
+Lemma quote_from_bytes_chars safe bs :
+  Forall (fun b => b < 256) bs ->
+  Forall (fun x => qchar safe x = true /\ x < 128) (quote_from_bytes safe bs).
+Proof.
+  induction 1 as [|b bs Hb _ IH]; [constructor|].
+  unfold quote_from_bytes in *. cbn [flat_map]. apply Forall_app. split; [apply quote_byte_chars; exact Hb | exact IH].
+Qed.
+
+Lemma quote_gen_chars safe s : Forall (fun x => qchar safe x = true /\ x < 128) (quote_gen safe s).
+Proof. apply quote_from_bytes_chars, utf8_enc_str_bytes. Qed.
+
+Lemma quote_byte_nonempty safe b : quote_byte safe b <> [].
+Proof. unfold quote_byte, pct_byte. destruct ((b <? 128) && (always_safe b || safe b)); discriminate. Qed.
+
+Lemma quote_gen_nonempty safe s : s <> [] -> quote_gen safe s <> [].
+Proof.
+  destruct s as [|c s]; [congruence|]. intros _.
+  unfold quote_gen, quote_from_bytes, utf8_enc_str. cbn [flat_map].
+  pose proof (utf8_enc_nonempty c) as Hc. destruct (utf8_enc c) as [|b r]; [congruence|].
+  cbn [app flat_map]. pose proof (quote_byte_nonempty safe b) as Hq.
+  destruct (quote_byte safe b); [congruence | discriminate].
+Qed.
+
+(* ---- unquote_to_bytes inverts quote_from_bytes ---- *)
+
+Lemma unq_quote_byte safe b r :
+  b < 256 -> safe 37 = false ->
+  unquote_to_bytes (quote_byte safe b ++ r) = b :: unquote_to_bytes r.
+Proof.
+  intros Hb Hs. unfold quote_byte.
+  destruct ((b <? 128) && (always_safe b || safe b)) eqn:E.
+  - cbn [app unquote_to_bytes].
+    destruct (N.eqb_spec b 37) as [->|Hn]; [|reflexivity].
+    rewrite Hs in E. vm_compute in E. discriminate.
+  - unfold pct_byte. cbn [app unquote_to_bytes]. cbn [N.eqb Pos.eqb].
+    rewrite !hexval_hex_upper by lia. f_equal. lia.
+Qed.
+
+Lemma unquote_to_bytes_quote safe bs r :
+  Forall (fun b => b < 256) bs -> safe 37 = false ->
+  unquote_to_bytes (quote_from_bytes safe bs ++ r) = bs ++ unquote_to_bytes r.
+Proof.
+  intros H Hs. induction H as [|b bs Hb _ IH]; [reflexivity|].
+  unfold quote_from_bytes in *. cbn [flat_map]. rewrite <- app_assoc.
+  rewrite unq_quote_byte by assumption. rewrite IH. reflexivity.
+Qed.
+
+Lemma unquote_to_bytes_nopct a : contains_char N.eqb 37 a = false -> unquote_to_bytes a = a.
+Proof.
+  induction a as [|c a IH]; [reflexivity|].
+  unfold contains_char in *. cbn [existsb unquote_to_bytes]. intros H.
+  apply orb_false_iff in H. destruct H as [H1 H2]. rewrite H1. f_equal. apply IH, H2.
+Qed.
+
+(* ---- unquote on an all-ASCII string: one run ---- *)
+
+Lemma unquote_parts_ascii rrun a :
+  Forall (fun c => c < 128) a -> unquote_parts rrun a = unquote_run (rev a ++ rrun).
+Proof.
+  intros H. revert rrun. induction H as [|c a Hc _ IH]; intros rrun; [reflexivity|].
+  cbn [unquote_parts rev]. replace (c <? 128) with true by lia.
+  rewrite IH, <- app_assoc. reflexivity.
+Qed.
+
+Lemma ascii_scalar a : Forall (fun c => c < 128) a -> Forall scalar a.
+Proof. apply Forall_impl. intros c Hc. left. lia. Qed.
+
+Lemma utf8_dec_replace_ascii a : Forall (fun c => c < 128) a -> utf8_dec_replace a = a.
+Proof.
+  intros H. rewrite <- (utf8_enc_str_ascii a H) at 1.
+  apply utf8_dec_replace_enc, ascii_scalar, H.
+Qed.
+
+Lemma unquote_ascii a :
+  Forall (fun c => c < 128) a -> unquote a = utf8_dec_replace (unquote_to_bytes a).
+Proof.
+  intros H. unfold unquote. destruct (contains_char N.eqb 37 a) eqn:E.
+  - rewrite unquote_parts_ascii by exact H. unfold unquote_run.
+    rewrite app_nil_r, rev_involutive. reflexivity.
+  - rewrite unquote_to_bytes_nopct by exact E. symmetry. apply utf8_dec_replace_ascii, H.
+Qed.
+
+(* ---- round trips ---- *)
+
+Lemma unquote_quote_gen safe s :
+  safe 37 = false -> Forall scalar s -> unquote (quote_gen safe s) = s.
+Proof.
+  intros Hs Hsc. rewrite unquote_ascii.
+  - unfold quote_gen. rewrite <- (app_nil_r (quote_from_bytes _ _)).
+    rewrite unquote_to_bytes_quote by (try apply utf8_enc_str_bytes; exact Hs).
+    cbn [unquote_to_bytes]. rewrite app_nil_r. apply utf8_dec_replace_enc, Hsc.
+  - eapply Forall_impl; [|apply (quote_gen_chars safe s)]. intros x [_ Hx]. exact Hx.
+Qed.
+
+(* MAIN: urllib.parse.unquote(urllib.parse.quote(s, safe='')) == s for scalar text *)
+Theorem unquote_quote s : Forall scalar s -> unquote (quote s) = s.
+Proof. apply unquote_quote_gen. reflexivity. Qed.
+
+(* the same for any ASCII safe set that does not contain '%' (e.g. safe='/') *)
+Theorem unquote_quote_safe safe s : safe 37 = false -> Forall scalar s -> unquote (quote_gen safe s) = s.
+Proof. apply unquote_quote_gen. Qed.
+
+(* ---- '+' ---- *)
+
+Lemma replace_char_app c r (a b : str) :
+  replace_char N.eqb c r (a ++ b) = replace_char N.eqb c r a ++ replace_char N.eqb c r b.
+Proof. unfold replace_char. apply flat_map_app. Qed.
+
+Lemma replace_char_absent c r (s : str) : Forall (fun x => x <> c) s -> replace_char N.eqb c r s = s.
+Proof.
+  induction 1 as [|x s Hx _ IH]; [reflexivity|].
+  unfold replace_char in *. cbn [flat_map]. rewrite IH.
+  destruct (N.eqb_spec x c); [contradiction | reflexivity].
+Qed.
+
+Lemma replace_back (s : str) :
+  Forall (fun x => x <> 43) s ->
+  replace_char N.eqb 43 [32] (replace_char N.eqb 32 [43] s) = s.
+Proof.
+  induction 1 as [|x s Hx _ IH]; [reflexivity|].
+  unfold replace_char in *. cbn [flat_map]. rewrite flat_map_app, IH.
+  destruct (N.eqb_spec x 32) as [->|Hn]; [reflexivity|].
+  cbn [flat_map app]. destruct (N.eqb_spec x 43); [contradiction | reflexivity].
+Qed.
+
+Lemma quote_gen_no_char safe s c :
+  qchar safe c = false -> Forall (fun x => x <> c) (quote_gen safe s).
+Proof.
+  intros Hc. eapply Forall_impl; [|apply (quote_gen_chars safe s)].
+  intros x [Hx _] ->. congruence.
+Qed.
+
+(* parse_qsl undoes quote_plus with replace('+',' ') followed by unquote *)
+Theorem unquote_plus_quote_plus s :
+  Forall scalar s -> unquote (replace_char N.eqb 43 [32] (quote_plus s)) = s.
+Proof.
+  intros H. unfold quote_plus.
+  rewrite replace_back by (apply quote_gen_no_char; reflexivity).
+  apply unquote_quote_gen; [reflexivity | exact H].
+Qed.
+
+(* quote(safe='') never emits '+', so the replace('+',' ') of parse_qsl leaves it alone *)
+Theorem unquote_plus_quote s :
+  Forall scalar s -> unquote (replace_char N.eqb 43 [32] (quote s)) = s.
+Proof.
+  intros H. unfold quote.
+  rewrite replace_char_absent by (apply quote_gen_no_char; reflexivity).
+  apply unquote_quote_gen; [reflexivity | exact H].
+Qed.
